@@ -395,6 +395,12 @@ fn c02(sim: &mut Sim, d: &Delivery) -> u64 {
     if let Err((code, msg)) = c02_relation(d.buf, &allowed, &r) {
         sim.find(&code, d.ev, msg);
     }
+    if d.buf.is_empty() {
+        sim.stats.probe("empty_buffer_delivered");
+    }
+    if d.buf.len() == 1 {
+        sim.stats.probe("one_byte_buffer_delivered");
+    }
     if r.len() >= 2 {
         sim.stats.probe("multi_element_result");
         sim.stats.nontrivial = true;
